@@ -78,6 +78,9 @@ def Report.str : Report → String
   | .gc .owned => "gc:owned"
   | .gc .deletedUsage => "gc:ok"
   | .gc (.res r) => "gc:" ++ r.str
+  | .reapplied none => "ignored"
+  | .reapplied (some true) => "ok"
+  | .reapplied (some false) => "notControllable"
   | .started ok => if ok then "started" else "ignored"
   | .ignored => "ignored"
   | .call req reply fin =>
@@ -187,6 +190,7 @@ def stepOf (st : RunSt) (j : Json) : RunSt :=
     if str j "kind" == "Usage" && (str j "av" == "" || groupOf (str j "av") == "apiextensions.crossplane.io") then
       RunSt.push (st.act (.gcU (str j "name")))
     else RunSt.push (st.act (.gcR (groupOf (str j "av")) (str j "kind") (str j "name")))
+  | "xa" => RunSt.push (st.act (.xa (str j "name") (str j "ctrl")))
   | "start" => RunSt.push (st.act (.start (str j "u")))
   | "step" => RunSt.push (st.act (.step (str j "u") (outcomeOf (str j "o")) none))
   | "run" => st.runU (str j "u")
